@@ -261,6 +261,8 @@ def main():
         for t in kres["trusted"]:
             trusted.add("kani: " + t)
         for so in static_checks.for_property(prop):
+            if so.get("inconclusive"):
+                inconclusive.append("static: " + so["inconclusive"])
             obligations.append(so)
         for do in differential_obligations(prop, tier, seed):
             obligations.append(do)
